@@ -447,8 +447,11 @@ class MockIncludeDirective:
         # get required section of text
         startline = self.options.get("start-line", None)
         endline = self.options.get("end-line", None)
-        file_content = "\n".join(file_content.splitlines()[startline:endline])
-        startline = startline or 0
+        file_lines = file_content.splitlines()
+        file_content = "\n".join(file_lines[startline:endline])
+        # number of lines before the first included one
+        # (a negative start-line counts from the end, one beyond the end is clamped)
+        startline = len(file_lines[:startline]) if startline else 0
         for split_on_type in ["start-after", "end-before"]:
             split_on = self.options.get(split_on_type, None)
             if not split_on:
